@@ -12,7 +12,7 @@ DICT = [
     "@error ", "@keyframes ", "@font-face", "@-moz-document ", "!default", "!global", "!important", "!optional",
     "$a", "$a: ", "&", "&-b", "%p", ".a", "#b", "*", "+", "-", "/", "%", "==", "!=", "<=", ">=", "<", ">",
     " and ", " or ", "not ", "1e999", "1e-999", "1e", ".5", "0.", "-0", "1px", "2em", "3%", "4deg", "1/2",
-    "\\9", "\\", "\\a ", "\\110000 ", "\\0 ", "\u0000", "\ufeff", "\U0001F389", "e\u0301", "\u200d", "\r\n", "\r",
+    "\\9", "\\", "\\a ", "\\110000 ", "\\0 ", "\\d800 ", "\\dbff", "\\dc00 ", "\\dfff ", "\\10ffff ", "\\ffffff", "\\e000 ", "\u0000", "\ufeff", "\U0001F389", "e\u0301", "\u200d", "\r\n", "\r",
     "\f", "\n", "\n  ", "\t", "//", "/*", "*/", "/*!", "'", '"', "url(", "url(#{", "calc(", "min(", "max(", "clamp(",
     "var(--x", "--x:", "progid:", "expression(", "element(", "U+26", "U+0-7F", "u+1??", "rgb(", "hsl(", "hwb(",
     "if(", "map-get(", "nth(", "call(", "get-function(", "selector-", "inspect(", "null", "true", "false",
@@ -65,6 +65,43 @@ def mutate(rng, s, other=None):
             i = rng.below(n)
             s = s[:i] + s[i + 1:]
     return s[:8192]
+
+
+# code points at every boundary the escape decoder has to handle (NUL, C0, surrogate range edges, BMP end, max, beyond)
+ESCAPE_CPS = ["0", "1", "9", "a", "d", "1f", "20", "22", "27", "5c", "7f", "80", "a0", "d7ff", "d800", "d801", "dbff",
+              "dc00", "dc01", "dfff", "e000", "fffd", "fffe", "ffff", "10000", "10ffff", "110000", "1fffff", "ffffff",
+              "00d800", "00dc00", "0000000", "dc000", "G", "", "\n"]
+ESCAPE_CONTEXTS = [
+    'a { b: "x%sy"; }', "a { b: 'x%sy'; }", 'a { b: x%sy; }', 'a { b: %s; }', 'a { b%s: c; }', '.a%s { b: c; }', '#a%s { b: c; }',
+    'a%s { b: c; }', '%%p%s { b: c; } a { @extend %%p%s; }', 'a { b: url(x%sy); }', 'a { b: url("x%sy"); }', '$a%s: 1; a { b: $a%s; }',
+    '@function f%s() { @return 1; } a { b: f%s(); }', '@mixin m%s { b: c; } a { @include m%s; }', 'a { b: "#{x%sy}"; }',
+    'a { b: #{"x%sy"}; }', '@import "x%sy.css";', '@use "x%sy";', '@media x%sy { a { b: c; } }', 'a { --x%s: y%s; }',
+    '[a="x%sy"] { b: c; }', '[a%s=b] { c: d; }', 'a { b: c !imp%sortant; }', '@if true {} @%s lse { a { b: c; } }',
+    '@if true {} @e%slse { a { b: c; } }', 'a { b: U+%s; }', 'a { b: calc(1px + x%s); }', 'a { b: str-length("%s"); }',
+    'a { b: unquote("%s") + quote(x%s); }', '@%s x { a { b: c; } }', '@x%s y%s { a { b: c; } }', '@keyframes k%s { fr%som { a: b; } }',
+    ':not(.a%s) { b: c; }', 'a::b%s { c: d; }', 'a { b: map-get((x%s: 1), x%s); }', '@charset "x%sy"; a { b: c; }',
+    '@supports (a%s: b%s) { c { d: e; } }', '@at-root a%s { b: c; }', '@debug "x%sy"; @warn x%s; a { b: c; }', '@error "x%sy";',
+    '@font-face { font-family: "a%s"; unicode-range: U+%s; }', 'a { b: selector-parse(".x%sy"); }', '/* x%sy */ a { b: c; }',
+    '// x%sy\na { b: c; }', 'a { b: 1%s; c: 1px%s; d: #a%s; e: 10%s0; }',
+]
+
+
+def escape_family():
+    """every boundary code point as a hex escape (with/without the terminating space, short/padded/overlong) in every
+    lexical context that decodes escapes; yields (text, syntax)"""
+    for cp in ESCAPE_CPS:
+        forms = ["\\" + cp, "\\" + cp + " ", "\\" + cp.upper() + "\t"] if cp not in ("", "\n", "G") else ["\\" + cp]
+        for ctx in ESCAPE_CONTEXTS:
+            for f in forms:
+                text = ctx.replace("%s", f).replace("%%", "%")
+                yield text, "scss"
+                if ctx.startswith(("a { b:", "@import", "@use", "@charset", "/*", "[a=", ".a", "#a")):
+                    yield text, "css"
+    for cp in ESCAPE_CPS:
+        f = "\\" + cp + " "
+        for body in ('a\n  b: "x%sy"', 'a%s\n  b: c', 'a\n  b%s: x%s', '@if true\n  a\n    b: c\n@%s lse\n  a\n    b: d', '$a%s: 1\na\n  b: $a%s',
+                     '@import "x%sy.css"', 'a\n  b: url(x%sy)', '=m%s\n  b: c\na\n  +m%s'):
+            yield body.replace("%s", f), "sass"
 
 
 def soup(rng, maxtok=40):
